@@ -86,6 +86,16 @@ type row struct {
 
 // reversed: database "b" declares its table t with the columns in the other order, so that two databases hold
 // equally named tables with different schemas (what one database knows about t must never serve the other)
+// ident writes a database name as SQL: a name that is not a plain identifier goes in double quotes
+func ident(n string) string {
+	for i, c := range n {
+		if !(c == '_' || c >= 'a' && c <= 'z' || c >= 'A' && c <= 'Z' || i > 0 && c >= '0' && c <= '9') {
+			return `"` + n + `"`
+		}
+	}
+	return n
+}
+
 func reversed(db string) bool { return strings.ToLower(db) == "b" }
 
 func (w *world) read(db string) (rows []row, err error) {
@@ -205,9 +215,9 @@ func replay(sc Scenario) (res Result) {
 		q := ""
 		switch st.A {
 		case "createdb":
-			q = "CREATE DATABASE " + st.N
+			q = "CREATE DATABASE " + ident(st.N)
 		case "use":
-			q = "USE " + st.N
+			q = "USE " + ident(st.N)
 		case "createtable":
 			q = "CREATE TABLE t (a INT, b VARCHAR(8))"
 			if reversed(st.Exp.Cur) {
@@ -309,7 +319,7 @@ func replay(sc Scenario) (res Result) {
 		return fail(n-1, fmt.Sprintf("at the end SHOW DATABASES lists %v, created %v", names, want))
 	}
 	for _, d := range last.Dbs {
-		if e, p := w.exec("USE " + d.D); e != nil || p {
+		if e, p := w.exec("USE " + ident(d.D)); e != nil || p {
 			return fail(n-1, fmt.Sprintf("at the end `USE %s` failed: %v", d.D, e))
 		}
 		if !d.Has {
